@@ -35,6 +35,9 @@ type torrentControl struct {
 	dispatcher   *dispatch.Dispatcher
 	errors       []chan error
 	localRequest bool
+	// complete is set once the dispatcher's completion event has been applied,
+	// i.e. once the clients in errors have been notified of the completion.
+	complete bool
 }
 
 // state is a superset of scheduler, which includes protected state which can
@@ -113,6 +116,14 @@ func (s *state) removeTorrent(h core.InfoHash, err error) {
 		s.sched.netevents.Produce(networkevent.TorrentCancelledEvent(h, s.sched.pctx.PeerID))
 		if err := s.sched.torrentArchive.DeleteTorrent(ctrl.dispatcher.Digest()); err != nil {
 			s.sched.log().Errorf("Error deleting torrent from archive: %s", err)
+		}
+	} else if !ctrl.complete {
+		// The torrent finished downloading, but its completion event has not
+		// been applied yet, so nobody has notified the waiting clients. Once
+		// the control is deleted the completion event can no longer find
+		// them, so they must be notified here or they would block forever.
+		for _, errc := range ctrl.errors {
+			errc <- err
 		}
 	}
 	delete(s.torrentControls, h)
